@@ -146,18 +146,6 @@ func realRank(c cid.Cid, members []string, ids map[string]peer.ID) []string {
 	return out
 }
 
-// safeAlerts reads Cluster.Alerts(). The pinned commit sizes the result slice
-// outside its lock, so a call that overlaps an append by alertsHandler can
-// panic (property C18's subject, not C10's): such a read is simply retried.
-func safeAlerts(r *rig.Rig) (out []api.Alert) {
-	defer func() {
-		if recover() != nil {
-			out = nil
-		}
-	}()
-	return r.Cluster.Alerts()
-}
-
 func sortedNames(ids []peer.ID, n *hx.Names) []string {
 	out := n.PeerNames(ids)
 	sort.Strings(out)
@@ -286,56 +274,78 @@ func runEpisode(p *pools, e *episodeT, res *hx.Result) (*recT, error) {
 			}
 		}
 	}
-	alertAt := func(m, metric string) error {
-		r := rigs[m]
-		ev := eventT{Peers: []string{}, Logs: map[string][][2]string{}, Seen: map[string]bool{}, Kind: "alert", At: m, Failed: e.Ep.Failed, Metric: metric, Members: members(), Ps: pins(),
-			Log: [][2]string{}, Other: [][3]string{}}
+	// Completion of an alert is observed without touching Cluster.Alerts() while a handler may be appending
+	// to it: alertsHandler is one sequential loop, so a second PING alert about a peer that is no member (it
+	// re-homes nothing) reaching State.List proves that the first alert has been dealt with completely.
+	dummy := names.Peer("no-member-barrier")
+	lists := func(m, metric string) int { // State.List calls the coded handler makes for (alert, barrier)
+		if isF[m] || e.W.NoRepin {
+			return 0
+		}
+		if metric == "ping" {
+			return 2
+		}
+		return 1
+	}
+	send := func(m, metric string) error {
 		a := &api.Alert{Metric: api.Metric{Name: metric, Peer: ids[e.Ep.Failed], Valid: false}, TriggeredAt: time.Now()}
-		p.barrier++
-		bname := fmt.Sprintf("verif-barrier-%d", p.barrier)
-		b := &api.Alert{Metric: api.Metric{Name: bname, Peer: ids[e.Ep.Failed]}, TriggeredAt: time.Now()}
-		select {
-		case r.Mon.AlertCh <- a:
-		case <-time.After(20 * time.Second):
-			return fmt.Errorf("alert channel of %s is full: nobody reads it", m)
-		}
-		// the handler is one sequential loop: once the barrier alert shows up in Alerts(), the ping alert is done with
-		expectSeen := !isF[m] && !(e.W.NoRepin && metric == "ping")
-		deadline := time.Now().Add(30 * time.Second)
-		if !expectSeen {
-			deadline = time.Now().Add(400 * time.Millisecond)
-		}
-		sent := false
-		for time.Now().Before(deadline) && !ev.Barrier {
-			if !sent {
-				select {
-				case r.Mon.AlertCh <- b:
-					sent = true
-				default:
-				}
-			}
-			for _, al := range safeAlerts(r) {
-				if al.Name == bname {
-					ev.Barrier = true
-				}
-			}
-			if !ev.Barrier {
-				time.Sleep(5 * time.Millisecond)
+		b := &api.Alert{Metric: api.Metric{Name: "ping", Peer: dummy, Valid: false}, TriggeredAt: time.Now()}
+		for _, al := range []*api.Alert{a, b} {
+			select {
+			case rigs[m].Mon.AlertCh <- al:
+			case <-time.After(20 * time.Second):
+				return fmt.Errorf("alert channel of %s is full: nobody reads it", m)
 			}
 		}
-		if expectSeen && !ev.Barrier {
-			return fmt.Errorf("peer %s did not finish handling the alert within 30s", m)
+		return nil
+	}
+	waitLists := func(target int) bool {
+		deadline := time.Now().Add(40 * time.Second)
+		for time.Now().Before(deadline) {
+			if p.gate.Count() >= target {
+				return true
+			}
+			time.Sleep(2 * time.Millisecond)
 		}
-		if !sent || !ev.Barrier {
-			// drain what the (dead or follower) handler will never read, so that the channel does not fill up
+		return false
+	}
+	// quiet: peers whose handler makes no List call (followers, repinning disabled): give them time, then look
+	settle := func(ms []string) map[string]int {
+		out := map[string]int{}
+		if len(ms) == 0 {
+			return out
+		}
+		time.Sleep(400 * time.Millisecond)
+		for _, m := range ms {
+			// nothing is appending any more (the handler either ended or has consumed both alerts)
+			out[m] = len(rigs[m].Cluster.Alerts())
 			for {
 				select {
-				case <-r.Mon.AlertCh:
+				case <-rigs[m].Mon.AlertCh:
 					continue
 				default:
 				}
 				break
 			}
+		}
+		return out
+	}
+	alertAt := func(m, metric string) error {
+		ev := eventT{Peers: []string{}, Logs: map[string][][2]string{}, Seen: map[string]bool{}, Kind: "alert", At: m, Failed: e.Ep.Failed, Metric: metric, Members: members(), Ps: pins(),
+			Log: [][2]string{}, Other: [][3]string{}}
+		c0 := p.gate.Count()
+		before := len(rigs[m].Cluster.Alerts())
+		if err := send(m, metric); err != nil {
+			return err
+		}
+		if n := lists(m, metric); n > 0 {
+			if !waitLists(c0 + n) {
+				return fmt.Errorf("peer %s did not finish handling the alert within 40s", m)
+			}
+			ev.Barrier = true
+		} else {
+			// barrier = the handler went on to record the barrier alert after the first one
+			ev.Barrier = settle([]string{m})[m]-before >= 2
 		}
 		ev.Ps2 = pins()
 		ev.Members2 = members()
@@ -363,67 +373,43 @@ func runEpisode(p *pools, e *episodeT, res *hx.Result) (*recT, error) {
 	alertsAll := func(metric string) error {
 		ev := eventT{Peers: []string{}, Logs: map[string][][2]string{}, Seen: map[string]bool{}, Kind: "alerts", Failed: e.Ep.Failed, Metric: metric, Members: members(), Ps: pins(),
 			Log: [][2]string{}, Other: [][3]string{}}
-		readers := 0
+		listers, total := 0, 0
+		var quiet []string
+		before := map[string]int{}
 		for _, m := range order {
 			if m == e.Ep.Failed {
 				continue
 			}
 			ev.Peers = append(ev.Peers, m)
 			ev.Seen[m] = false
-			if !isF[m] && metric == "ping" && !e.W.NoRepin {
-				readers++
+			if n := lists(m, metric); n > 0 {
+				listers++
+				total += n
+			} else {
+				quiet = append(quiet, m)
+				before[m] = len(rigs[m].Cluster.Alerts())
 			}
 		}
 		sort.Strings(ev.Peers)
-		p.gate.Arm(readers)
-		bnames := map[string]string{}
-		for _, m := range order {
-			if m == e.Ep.Failed {
-				continue
-			}
-			p.barrier++
-			bnames[m] = fmt.Sprintf("verif-barrier-%d", p.barrier)
-			a := &api.Alert{Metric: api.Metric{Name: metric, Peer: ids[e.Ep.Failed], Valid: false}, TriggeredAt: time.Now()}
-			b := &api.Alert{Metric: api.Metric{Name: bnames[m], Peer: ids[e.Ep.Failed]}, TriggeredAt: time.Now()}
-			for _, al := range []*api.Alert{a, b} {
-				select {
-				case rigs[m].Mon.AlertCh <- al:
-				case <-time.After(20 * time.Second):
-					p.gate.Disarm()
-					return fmt.Errorf("alert channel of %s is full: nobody reads it", m)
-				}
-			}
+		c0 := p.gate.Count()
+		if metric == "ping" {
+			p.gate.Arm(listers) // every handler reads the pinset before any of them re-pins
 		}
 		for _, m := range ev.Peers {
-			expectSeen := !isF[m] && !(e.W.NoRepin && metric == "ping")
-			deadline := time.Now().Add(40 * time.Second)
-			if !expectSeen {
-				deadline = time.Now().Add(400 * time.Millisecond)
-			}
-			for time.Now().Before(deadline) && !ev.Seen[m] {
-				for _, al := range safeAlerts(rigs[m]) {
-					if al.Name == bnames[m] {
-						ev.Seen[m] = true
-					}
-				}
-				if !ev.Seen[m] {
-					time.Sleep(5 * time.Millisecond)
-				}
-			}
-			if expectSeen && !ev.Seen[m] {
+			if err := send(m, metric); err != nil {
 				p.gate.Disarm()
-				return fmt.Errorf("peer %s did not finish handling the alert within 40s", m)
+				return err
 			}
-			if !ev.Seen[m] {
-				for {
-					select {
-					case <-rigs[m].Mon.AlertCh:
-						continue
-					default:
-					}
-					break
-				}
-			}
+		}
+		if !waitLists(c0 + total) {
+			p.gate.Disarm()
+			return fmt.Errorf("the survivors did not finish handling the alert within 40s")
+		}
+		for _, m := range ev.Peers {
+			ev.Seen[m] = lists(m, metric) > 0
+		}
+		for m, n := range settle(quiet) {
+			ev.Seen[m] = n-before[m] >= 2
 		}
 		ev.Gate = p.gate.Arrived()
 		p.gate.Disarm()
